@@ -308,6 +308,8 @@ def is_stringy(e) -> bool:
     if isinstance(e, ast.Call):
         if isinstance(e.func, ast.Attribute) and e.func.attr in ("join", "format") and is_stringy(e.func.value):
             return True
+    if isinstance(e, ast.IfExp) and is_stringy(e.body) and is_stringy(e.orelse):
+        return True
     return False
 
 
@@ -325,6 +327,8 @@ def template_of(e, defs: Optional[Defs] = None, depth=0) -> List[Chunk]:
         return out
     if isinstance(e, ast.BinOp) and isinstance(e.op, ast.Add):
         return template_of(e.left, defs, depth) + template_of(e.right, defs, depth)
+    if isinstance(e, ast.IfExp) and is_stringy(e.body) and is_stringy(e.orelse):
+        return template_of(e.body, defs, depth + 1)
     if isinstance(e, ast.BinOp) and isinstance(e.op, ast.Mod) and isinstance(e.left, ast.Constant) and isinstance(e.left.value, str):
         args = e.right.elts if isinstance(e.right, ast.Tuple) else [e.right]
         return _fmt_split(e.left.value, "%s", args)
@@ -332,11 +336,27 @@ def template_of(e, defs: Optional[Defs] = None, depth=0) -> List[Chunk]:
         if e.func.attr == "join" and isinstance(e.func.value, ast.Constant) and isinstance(e.func.value.value, str) and len(e.args) == 1:
             sep = e.func.value.value
             arg = e.args[0]
+            if isinstance(arg, ast.Name) and defs is not None and arg.id in defs.defs and arg.id not in defs.params:
+                whole = [v for v in defs.defs[arg.id] if isinstance(v, (ast.ListComp, ast.GeneratorExp, ast.List))]
+                if len(whole) == 1 and len([v for v in defs.defs[arg.id] if isinstance(v, ast.expr)]) == 1:
+                    arg = whole[0]
+            if isinstance(arg, (ast.ListComp, ast.GeneratorExp)) and depth < 4 and (is_stringy(arg.elt) or (isinstance(arg.elt, ast.Call) and isinstance(arg.elt.func, ast.Attribute) and arg.elt.func.attr == "format")):
+                inner = template_of(arg.elt, defs, depth + 1)
+                # two adjacent elements with the separator between them model every neighbourhood
+                return inner + [Lit(sep)] + inner if sep else inner + inner
             elt = arg.elt if isinstance(arg, (ast.ListComp, ast.GeneratorExp)) else _IterOf(arg)
             # model:  elt (sep elt)*   -> one representative element with sep on both sides
             return [Hole(elt, via_join=sep)]
         if e.func.attr == "format" and isinstance(e.func.value, ast.Constant) and isinstance(e.func.value.value, str) and not e.keywords:
-            return _fmt_split(e.func.value.value, "{}", list(e.args))
+            out = []
+            for ch in _fmt_split(e.func.value.value, "{}", list(e.args)):
+                if isinstance(ch, Hole) and depth < 4 and (is_stringy(ch.expr) or (isinstance(ch.expr, ast.Call) and isinstance(ch.expr.func, ast.Name) and ch.expr.func.id == "str")
+                                                           or isinstance(ch.expr, ast.Name)):
+                    sub = template_of(ch.expr, defs, depth + 1)
+                    out += sub
+                else:
+                    out.append(ch)
+            return out
     if isinstance(e, ast.Call) and isinstance(e.func, ast.Name) and e.func.id == "str" and len(e.args) == 1:
         if is_stringy(e.args[0]):
             return template_of(e.args[0], defs, depth + 1)
@@ -357,6 +377,23 @@ class _IterOf(ast.AST):
 
 
 def _fmt_split(fmt: str, marker: str, args) -> List[Chunk]:
+    if marker == "{}":
+        import string
+        out: List[Chunk] = []
+        k = 0
+        try:
+            for lit, field, spec, conv in string.Formatter().parse(fmt):
+                if lit:
+                    out.append(Lit(lit))
+                if field is not None:
+                    idx = int(field) if field.isdigit() else (k if field == "" else None)
+                    if idx is None or idx >= len(args):
+                        return [Hole(a) for a in args] or [Lit(fmt)]
+                    out.append(Hole(args[idx]))
+                    k += 1
+            return out
+        except (ValueError, IndexError):
+            return [Hole(a) for a in args] or [Lit(fmt)]
     parts = fmt.split(marker)
     if len(parts) - 1 != len(args):
         return [Hole(a) for a in args] or [Lit(fmt)]
